@@ -62,13 +62,13 @@ func (c Nodeconfig) StringConfigRequired(name string) (string, error) {
 }
 
 // Float64Config validates and fetches the flaot-typed optional config value specified by 'name', using the 'defaultValue' if
-// no value was provided in the configuration. The default float64 (if used) is formatted following platform-and-golang
-// default precision and width (%f formatting).
+// no value was provided in the configuration. The default float64 (if used) is formatted with the shortest representation
+// that parses back to exactly the same value, so that the default is returned unchanged whatever its magnitude or precision.
 func (c Nodeconfig) Float64Config(name string, defaultValue float64, minValue float64, maxValue float64) (float64, error) {
 	// set the default value, if not provided
 	_, ok := c[name]
 	if !ok {
-		c[name] = fmt.Sprintf("%f", defaultValue)
+		c[name] = strconv.FormatFloat(defaultValue, 'g', -1, 64)
 	}
 
 	return c.Float64ConfigRequired(name, minValue, maxValue)
